@@ -155,7 +155,12 @@ def run_family(acc, job, fam, present):
                         snap = {c: np.array(pots[c].values, copy=True) for c in regions}
                         mu = rg.belief_propagation(pots)
                         if h == depth:
-                            mu = rg.belief_propagation(pots)   # the same potentials object passed again
+                            # the same CliqueVector object passed again after the caller updated its contents in place
+                            for r_ in regions:
+                                if r_ in gen:
+                                    pots[r_].values[...] = pots[r_].values + 0.7 * rng.randn(*pots[r_].values.shape)
+                            snap = {c: np.array(pots[c].values, copy=True) for c in regions}
+                            mu = rg.belief_propagation(pots)
                         mutated = [c for c in regions if not np.array_equal(snap[c], np.asarray(pots[c].values), equal_nan=True)]
                         case = {'oracle': 'region-graph', 'k': k, 'fam': [list(c) for c in fam], 'present': present, 'minimal': minimal, 'total': total,
                                 'pclass': pclass, 'iters': iters, 'calls': h, 'seed': job['seed'], 'tier': job['tier']}
@@ -229,7 +234,11 @@ def run_family(acc, job, fam, present):
                     seen_cb = []
                     mu = fg.belief_propagation(pots, callback=(lambda m: seen_cb.append(1)) if h == 2 else None)
                     if h == depth:
-                        mu = fg.belief_propagation(pots)   # the same potentials object passed again
+                        # the same CliqueVector object passed again after the caller updated its contents in place
+                        for c_ in cliques:
+                            pots[c_].values[...] = pots[c_].values + 0.7 * rng.randn(*pots[c_].values.shape)
+                        snap = {c: np.array(pots[c].values, copy=True) for c in cliques}
+                        mu = fg.belief_propagation(pots)
                     mutated = [c for c in cliques if not np.array_equal(snap[c], np.asarray(pots[c].values), equal_nan=True)]
                     case = {'oracle': 'factor-graph', 'k': k, 'fam': [list(c) for c in fam], 'present': present, 'total': total, 'scale': scale,
                             'iters': iters, 'calls': h, 'seed': job['seed'], 'tier': job['tier']}
